@@ -369,7 +369,7 @@ FEATS = [0x7FFFF, 0x1 | 0x2 | 0x4 | 0x40 | 0x80 | 0x1000, 0x2 | 0x4 | 0x40 | 0x8
 
 
 # ================================================================================================ whole pipeline (support)
-STATE_FIELDS = ["xpos", "xquat", "xipos", "qM", "qfrc_bias", "qfrc_passive", "qfrc_actuator", "qacc_smooth", "ten_length", "sensordata"]
+STATE_FIELDS = ["xpos", "xquat", "xipos", "qM", "qfrc_bias", "qfrc_passive", "qfrc_actuator", "qacc_smooth", "ten_length", "sensordata", "actuator_force", "qfrc_gravcomp"]
 DYN_FIELDS = ["qacc", "qfrc_constraint", "next_qpos", "next_qvel"]
 
 
@@ -519,6 +519,35 @@ def jdotv_replay(ctx, M, states, c, x, sup):
                           note="fixed replay; exactly_this_class=%s" % exact)
 
 
+ICLAMP_SIG = {"site": "mjx derivative.deriv_smooth_vel", "class": "clamped-actuator-velocity-derivative"}
+
+
+def implicit_clamp_replay(ctx, M, states, c, x, sup):
+    """C mjd_actuator_vel skips an actuator whose force is clamped by forcerange; MJX deriv_smooth_vel keeps gain_vel / bias_vel, so an implicitfast step
+    of a saturated velocity / position servo differs.  exactly_this_class: every forward output agrees (1e-9), the actuator force sits on its forcerange
+    bound, and only the implicitfast next state differs.  Emitted under ICLAMP_SIG once registered; recorded in the evidence until then."""
+    rec = {"registered": any(k.get("property") == "C43" and k.get("match") == ICLAMP_SIG for k in ctx.kf.get("findings", [])), "states": []}
+    sup["implicit_clamp_replay"] = rec
+    if "error" in c or "error" in x or "notimpl" in x:
+        ctx.broken.append(("oracle", "fixed replay implicit_clamped_servo could not be run", str(c.get("error")) + str(x.get("error")) + str(x.get("notimpl"))))
+        return
+    lo, hi = M["acts"][0]["forcerange"]
+    for si, (sc, sx) in enumerate(zip(c["states"], x["states"])):
+        pre = max(rel(sc[f], sx[f]) for f in ("xpos", "qM", "qfrc_bias", "qfrc_passive", "qfrc_actuator", "actuator_force", "qacc"))
+        sat = sc["actuator_force"][0] in (lo, hi)
+        dn = max(rel(sc["next_qvel"], sx["next_qvel"]), rel(sc["next_qpos"], sx["next_qpos"]))
+        exact = pre <= 1e-9 and sat
+        rec["states"].append({"forward_outputs_c_vs_mjx": float("%.3g" % pre), "actuator_force": sc["actuator_force"][0], "next_state_c_vs_mjx": float("%.3g" % dn),
+                              "exactly_this_class": bool(exact and dn > 1e-6)})
+        if dn > 1e-6:
+            if exact and not rec["registered"]:
+                continue
+            ctx.violation("impl_violation", {"family": "implicit_clamped_servo", "mjcf": MM.to_xml(M), "state": states[si], "quantity": "next state (implicitfast)"},
+                          expected="MJX next state equals the C engine's (1e-6 relative)", observed="relative difference %.3g" % dn, theorem=None,
+                          signature=ICLAMP_SIG if exact else {"site": "mjx pipeline", "quantity": "next_qvel"},
+                          note="fixed replay; exactly_this_class=%s" % exact)
+
+
 # ================================================================================================ the check
 def run(ctx):
     rng = ctx.rng
@@ -546,8 +575,8 @@ def run(ctx):
         return
 
     # ------------------------------------------------------------------ whole-pipeline job first (longest MJX run)
-    fams = ["connect_moving", "tendons", "solparams", "welded", "sensors", rng.choice(["smooth", "contact1", "contact3", "spheres"])] if quick else \
-           (["connect_moving"] + ["tendons"] * 4 + ["solparams"] * 8 + ["welded"] * 6 + ["sensors"] * 5 + ["smooth"] * 6 + ["contact1"] * 4 + ["contact3"] * 5 + ["spheres"] * 4 + ["capsules"] * 3)
+    fams = ["connect_moving", "implicit_clamped_servo", "tendons", "solparams", "welded", "sensors", "actuation", rng.choice(["smooth", "contact1", "contact3", "spheres"])] if quick else \
+           (["connect_moving", "implicit_clamped_servo"] + ["tendons"] * 4 + ["solparams"] * 8 + ["welded"] * 6 + ["sensors"] * 5 + ["actuation"] * 8 + ["smooth"] * 6 + ["contact1"] * 4 + ["contact3"] * 5 + ["spheres"] * 4 + ["capsules"] * 3)
     pmodels, pinp, pjobs = [], "", []
     for fam in fams:
         M = MM.reorder_depth_first(MM.make_model(rng, fam))
@@ -903,11 +932,30 @@ def run(ctx):
         px += r
     lap("mjx_pipeline_wait")
     stats, worst, notes = {}, {}, []
+    tail_cases = []
     if px is not None and pc and len(pc) == len(pmodels) == len(px):
         for (M, states), c, x in zip(pmodels, pc, px):
             if M.get("known") == "jdotv":
                 jdotv_replay(ctx, M, states, c, x, sup)
                 continue
+            if M.get("known") == "implicit_clamp":
+                implicit_clamp_replay(ctx, M, states, c, x, sup)
+                continue
+            if M["family"] == "actuation" and "states" in c and "states" in x and "model" in c and "error" not in c:
+                # per-dof tie of the actuation tail: joint-space force of the actuators on the joint (gear * actuator_force of THAT engine), gravcomp force,
+                # flags and range of the compiled C model -> Model/MjxKernels.v act_tail, against qfrc_actuator of the same engine
+                types_, dofadr, a0 = [j["type"] for b in M["bodies"] for j in b["joints"]], [], 0
+                for t in types_:
+                    dofadr.append(a0); a0 += {0: 6, 1: 3, 2: 1, 3: 1}[t]
+                for sc_, sx_ in zip(c["states"], x["states"]):
+                    for side, st in (("C", sc_), ("MJX", sx_)):
+                        if "actuator_force" not in st:
+                            continue
+                        for jn in range(len(types_)):
+                            frc = sum(a["gear"] * st["actuator_force"][k] for k, a in enumerate(M["acts"]) if a["joint"] == jn)
+                            dv = dofadr[jn]
+                            tail_cases.append((side, M, jn, [frc, st["qfrc_gravcomp"][dv], c["model"]["jnt_actfrcrange"][2 * jn], c["model"]["jnt_actfrcrange"][2 * jn + 1],
+                                                             st["qfrc_actuator"][dv]], bool(c["model"]["jnt_actgravcomp"][jn]), bool(c["model"]["jnt_actfrclimited"][jn])))
             found = compare_pipeline(M, c, x, stats, worst, notes)
             found.sort(key=lambda t: not (t[0].startswith("number of active contacts") or "missing in MJX" in t[0]))      # structural differences first
             for what, d, tol, si in found[:3]:
@@ -917,6 +965,23 @@ def run(ctx):
                               note="support oracle: whole-pipeline comparison on a model built through mjSpec (C) and MJCF (MJX); no theorem covers this")
     elif px is not None and pc:
         ctx.broken.append(("oracle", "pipeline replies do not line up", "%d models, %d C dumps, %d MJX replies" % (len(pmodels), len(pc), len(px))))
+    if tail_cases:
+        tl = ["(%s, %s, %s)" % (F.flist(a), "true" if g else "false", "true" if lm else "false") for _, _, _, a, g, lm in tail_cases]
+        tf = ctx.coq_eval("c43_tail", "From Coq Require Import ZArith List Bool PrimFloat.\nImport ListNotations.\nFrom MJV Require Import Lib.Num Lib.NumF Model.Spatial Model.ConstraintUpdate Model.MjxKernels.\n",
+                          tl, "chk_tail", 400, 900, "Open Scope float_scope.\nDefinition g (l : list float) (i : nat) : float := nth i l 0%%float.\n"
+                          "Definition chk_tail (c : list float * bool * bool) : bool := let '(a, gc, lm) := c in "
+                          "fclose %s (act_tail (T:=float) (g a 0) (g a 1) gc lm (g a 2) (g a 3)) (g a 4).\n" % TOL)
+        seen_t = set()
+        for i in tf:
+            side, Mt, jn, a, gflag, lm = tail_cases[i]
+            if side in seen_t:
+                continue
+            seen_t.add(side)
+            ctx.violation("correspondence", {"op": "actuation tail", "side": side, "joint": jn, "joint_space_actuator_force": a[0], "qfrc_gravcomp": a[1],
+                                             "actuatorfrcrange": a[2:4], "actuatorgravcomp": gflag, "actuatorfrclimited": lm, "mjcf": MM.to_xml(Mt)},
+                          expected="Model/MjxKernels.v act_tail (gravcomp added, then clamped)", observed="qfrc_actuator = %r" % a[4], found_input=(side == "MJX"),
+                          theorem="correspondence actuation tail (C43_act_tail)", signature={"site": "mj_fwdActuation" if side == "C" else "mjx forward.fwd_actuation"})
+        sup["actuation_tail_cases"] = len(tail_cases)
     sup["pipeline_counts"] = stats
     sup["pipeline_worst_relative_difference"] = {k: float("%.3g" % v) for k, v in sorted(worst.items())}
     sup["pipeline_notes"] = sorted(set(notes))[:12]
